@@ -503,6 +503,9 @@ pub(crate) struct DrawState {
     pub(crate) move_cursor: bool,
     /// Controls how the multi progress is aligned if some of its progress bars get removed, default is `Top`
     pub(crate) alignment: MultiProgressAlignment,
+    /// True if the previous draw printed nothing: the cursor is then not parked at the end of the
+    /// last line but sits at the start of the row below it.
+    cursor_below: bool,
 }
 
 impl DrawState {
@@ -519,13 +522,20 @@ impl DrawState {
             return Ok(());
         }
 
+        let mut cleared_any = false;
         if !self.lines.is_empty() && self.move_cursor {
             // Move up to first line (assuming the last line doesn't contain a '\n') and then move to then front of the line
             term.move_cursor_up(bar_count.as_usize().saturating_sub(1))?;
             term.write_str("\r")?;
         } else {
             // Fork of console::clear_last_lines that assumes that the last line doesn't contain a '\n'
-            let n = bar_count.as_usize();
+            // If the previous draw printed nothing, the lines to clear (zombie lines of a
+            // `MultiProgress`) end one row above the cursor; clear the cursor's (empty) row as well.
+            let n = match bar_count.as_usize() {
+                0 => 0,
+                n => n + usize::from(self.cursor_below),
+            };
+            cleared_any = n > 0;
             term.move_cursor_up(n.saturating_sub(1))?;
             for i in 0..n {
                 term.clear_line()?;
@@ -558,6 +568,7 @@ impl DrawState {
         // accurately reflect the number of lines that have been displayed on the terminal, if the
         // full height exceeds the terminal height.
         let mut real_height = VisualLines::default();
+        let mut printed_any = shift != VisualLines::default();
 
         for (idx, line) in self.lines.iter().enumerate() {
             let line_height = line.wrapped_height(term_width);
@@ -587,6 +598,7 @@ impl DrawState {
             }
 
             term.write_str(line.as_ref())?;
+            printed_any = true;
 
             if idx + 1 == self.lines.len() {
                 // For the last line of the output, keep the cursor on the right terminal
@@ -599,6 +611,11 @@ impl DrawState {
 
         term.flush()?;
         *bar_count = real_height + shift;
+        if printed_any {
+            self.cursor_below = false;
+        } else if cleared_any {
+            self.cursor_below = true;
+        }
 
         Ok(())
     }
